@@ -163,6 +163,7 @@ def run(ctx):
     # ------------------------------------------------------------------ C01-once
     ctx.rule("C01-once", "operator and operands are evaluated exactly once, outside loops, before the application")
     d_once = evaltables.rule_once(ctx, "C01-once")
+    evaltables.rule_trampoline(ctx, "C01-once", {"once"})      # ... and for a call in tail position (tail evaluator + trampoline together)
     def _old_once():
         reg, _ = arm(ee, "ExpressionBody", vidx["ProcedureCall"])
         once_rule(ctx, fb, ee, reg, ee.name, ap.name, ("ProcedureCall", 0), ("ProcedureCall", 1), "eval_expression")
